@@ -601,11 +601,16 @@ func (g *G) mutate(mo *HModel) string {
 
 func (g *G) hostileModel() (string, *HModel) {
 	user := HRestr{Type: lit("user")}
-	switch g.n("hostileFlavour", 0, 6) {
+	switch g.n("hostileFlavour", 0, 7) {
 	case 0:
 		// DAG blow-up: r_i = r_{i+1} op r_{i+1}; 2^k paths for a walker without memo
 		k := g.n("dagK", 2, 18)
-		if g.chance("dagLarge", 12) {
+		// (the fuzz targets run in-process: a validation that never ends would burn a core of
+		// the fuzz worker for the rest of its life, so the known blow-up is left to TestC19)
+		if g.focus != "" && k > 14 {
+			k = 14
+		}
+		if g.focus == "" && g.chance("dagLarge", 12) {
 			k = g.n("dagKLarge", 19, 64)
 		}
 		op := pickOf(g, "dagOp", []string{"union", "intersection", "difference"})
@@ -619,7 +624,7 @@ func (g *G) hostileModel() (string, *HModel) {
 	case 1:
 		// TTU blow-up: every level has two tuplesets to the same type
 		k := g.n("ttuK", 2, 14)
-		if g.chance("ttuLarge", 12) {
+		if g.focus == "" && g.chance("ttuLarge", 12) {
 			k = g.n("ttuKLarge", 15, 40)
 		}
 		td := HType{Name: lit("doc"), Rels: []HRel{
@@ -659,6 +664,14 @@ func (g *G) hostileModel() (string, *HModel) {
 			v.Restr = append(v.Restr, HRestr{Type: lit("user"), Cond: c.Key})
 		}
 		return "hostile:conditions", mo
+	case 7:
+		// several direct operands on a self-referencing relation: every operand re-dispatches
+		// every stored userset tuple (valid model; evaluation tree b^depth on cyclic data)
+		td := HType{Name: lit("doc"), Rels: []HRel{
+			{Name: lit("viewer"), RW: &HRW{K: "chain", Depth: g.n("towerDepth", 1, 8), Op: pickOf(g, "towerOp", []string{"union", "mixed", "intersection"}), Width: g.n("towerWidth", 2, 3), Leaf: &HRW{K: "this"}},
+				Restr: []HRestr{user, {Type: lit("doc"), Rel: lit("viewer")}}},
+		}}
+		return "hostile:direct-operand-tower", &HModel{Schema: "1.1", Types: []HType{{Name: lit("user")}, td}}
 	case 5:
 		// empty / degenerate
 		switch g.n("degenerate", 0, 3) {
